@@ -98,6 +98,15 @@ class FnExecutor(Executor):
                         org = self.origin_of(s.value, r.st)
                         if org is not None:
                             r.st.origin[tg.id] = org
+            elif isinstance(tg, ast.Name) and isinstance(v.t, (TList, TDict, TRec)) and isinstance(s.value, ast.Call) and \
+                    isinstance(s.value.func, ast.Attribute) and s.value.func.attr in ('setdefault', 'get') and s.value.args:
+                # d.setdefault(k, x) / d.get(k) return the element object itself: the local is a reference to d[k]
+                for r in rs:
+                    if r.exc is None:
+                        po = self.origin_of(s.value.func.value, r.st)
+                        ks = [x for x in self.ev(s.value.args[0], r.st.copy()) if x.exc is None]
+                        if po is not None and len(ks) == 1:
+                            r.st.origin[tg.id] = ('sub', po, None, ks[0].val)
             return rs
         return outs_from(bind(self.ev(s.value, st), f))
 
